@@ -128,57 +128,7 @@ def run(ctx, chk):
         check_balance(chk, "C06.release", prog, eff, deep, N3, B3, ctors, tag="[3 iterations] ")
         chk.extra["deep_paths"] = sum(len(deep.get(f.name)) for f in prog.lib_funcs())
 
-    # ---- raw blocks
-    nblocks = 0
-    for f in prog.lib_funcs():
-        worst = {}
-        for pa in cache.get(f.name):
-            for e in pa.events:
-                if not (e.kind == "call" and ((e.ckind == "alloc" and e.callee == "_cbor_malloc") or
-                                              (e.ckind == "lib" and e.callee in ("_cbor_alloc_multiple",)))):
-                    continue
-                if f.name in ("_cbor_alloc_multiple",):
-                    continue
-                blk = e.res
-                if pa.st.known_null(blk):
-                    continue
-                sinks = []
-                for e2 in pa.events:
-                    if e2 is e:
-                        continue
-                    if e2.kind == "store" and e2.args[1] == blk and ptr_key(e2.args[0])[0][0] != "alloca":
-                        sinks.append("stored")
-                    elif e2.kind == "store" and e2.args[1] == blk:
-                        # into a local aggregate: counts if that aggregate is copied out
-                        lb = ptr_key(e2.args[0])[0]
-                        if any(e3.kind == "memcpy" and ptr_key(e3.args[1])[0] == lb and ptr_key(e3.args[0])[0][0] != "alloca"
-                               for e3 in pa.events):
-                            sinks.append("stored")
-                    elif e2.kind == "call" and e2.ckind == "alloc" and e2.callee == "_cbor_free" and O.base_of(e2.args[0]) == blk:
-                        sinks.append("freed")
-                    elif e2.kind == "call" and e2.ckind == "lib" and e2.callee.endswith("_set_handle") and blk in e2.args:
-                        sinks.append("handed over")
-                    elif e2.kind == "memcpy" and ptr_key(e2.args[0]) == (blk, 0) and False:
-                        pass
-                if pa.ret == blk:
-                    sinks.append("returned")
-                # the item block itself: initialised by memcpy from the literal and then returned/freed
-                uniq = set(sinks)
-                ok = len(uniq) >= 1 and not ({"freed"} < uniq and ("returned" in uniq or "handed over" in uniq))
-                if "freed" in uniq and "stored" in uniq and len(uniq) == 2:
-                    ok = False
-                key = (f.name, e.ins.id)
-                det = "" if ok else ("block from %s is %s on a path returning %s" %
-                                     (e.callee, "leaked" if not uniq else "both " + " and ".join(sorted(uniq)), pa.ret))
-                cur = worst.get(key)
-                if cur is None or (cur[0] and not ok):
-                    worst[key] = (ok, e, det, pa)
-        for key, (ok, e, det, pa) in worst.items():
-            nblocks += 1
-            chk.ob("C06.blocks", "%s: block from %s" % (f.name, e.callee), ok, e.ins.loc(), fn=f.name,
-                   key="%s:%s:%d" % (f.name, e.callee, [x.id for x in prog.fn(f.name).calls() if x.line <= e.ins.line].__len__()),
-                   detail=det, path=pa.block_lines() if not ok else None)
-    chk.floor("C06.blocks", "allocation sites", nblocks, 26)
+    check_blocks(chk, "C06.blocks", prog, cache, floor=26)
 
     check_atomic(chk, "C06.atomic", prog, cache, floor=12)
 
@@ -274,4 +224,60 @@ def check_atomic(chk, rule, prog, cache, floor=None):
     if floor:
         chk.floor(rule, "failure paths of container operations", natom, floor)
     return natom
+
+
+
+def check_blocks(chk, rule, prog, cache, floor=None):
+    nblocks = 0
+    for f in prog.lib_funcs():
+        worst = {}
+        for pa in cache.get(f.name):
+            for e in pa.events:
+                if not (e.kind == "call" and ((e.ckind == "alloc" and e.callee == "_cbor_malloc") or
+                                              (e.ckind == "lib" and e.callee in ("_cbor_alloc_multiple",)))):
+                    continue
+                if f.name in ("_cbor_alloc_multiple",):
+                    continue
+                blk = e.res
+                if pa.st.known_null(blk):
+                    continue
+                sinks = []
+                for e2 in pa.events:
+                    if e2 is e:
+                        continue
+                    if e2.kind == "store" and e2.args[1] == blk and ptr_key(e2.args[0])[0][0] != "alloca":
+                        sinks.append("stored")
+                    elif e2.kind == "store" and e2.args[1] == blk:
+                        # into a local aggregate: counts if that aggregate is copied out
+                        lb = ptr_key(e2.args[0])[0]
+                        if any(e3.kind == "memcpy" and ptr_key(e3.args[1])[0] == lb and ptr_key(e3.args[0])[0][0] != "alloca"
+                               for e3 in pa.events):
+                            sinks.append("stored")
+                    elif e2.kind == "call" and e2.ckind == "alloc" and e2.callee == "_cbor_free" and O.base_of(e2.args[0]) == blk:
+                        sinks.append("freed")
+                    elif e2.kind == "call" and e2.ckind == "lib" and e2.callee.endswith("_set_handle") and blk in e2.args:
+                        sinks.append("handed over")
+                    elif e2.kind == "memcpy" and ptr_key(e2.args[0]) == (blk, 0) and False:
+                        pass
+                if pa.ret == blk:
+                    sinks.append("returned")
+                # the item block itself: initialised by memcpy from the literal and then returned/freed
+                uniq = set(sinks)
+                ok = len(uniq) >= 1 and not ({"freed"} < uniq and ("returned" in uniq or "handed over" in uniq))
+                if "freed" in uniq and "stored" in uniq and len(uniq) == 2:
+                    ok = False
+                key = (f.name, e.ins.id)
+                det = "" if ok else ("block from %s is %s on a path returning %s" %
+                                     (e.callee, "leaked" if not uniq else "both " + " and ".join(sorted(uniq)), pa.ret))
+                cur = worst.get(key)
+                if cur is None or (cur[0] and not ok):
+                    worst[key] = (ok, e, det, pa)
+        for key, (ok, e, det, pa) in worst.items():
+            nblocks += 1
+            chk.ob(rule, "%s: block from %s" % (f.name, e.callee), ok, e.ins.loc(), fn=f.name,
+                   key="%s:%s:%d" % (f.name, e.callee, [x.id for x in prog.fn(f.name).calls() if x.line <= e.ins.line].__len__()),
+                   detail=det, path=pa.block_lines() if not ok else None)
+    if floor:
+        chk.floor(rule, "allocation sites", nblocks, floor)
+    return nblocks
 
